@@ -126,8 +126,15 @@ let c08_fmt_file (f : z h5store option) : string =
                              @ [string_of_int (List.length d.ds_data)] @ List.map c08_hex_of_z d.ds_data)) st in
     let lines = List.sort compare lines in
     "FILE " ^ string_of_int (List.length lines) ^ " " ^ String.concat " ; " lines
-let c08_seq (_ : Float64.t arith) (toks : string list) : string =
+(* "SHARE id" marks an argument object that the Go harness passes to several calls;
+   the tokens that follow repeat its original definition, which is what the model uses. *)
+let rec c08_drop_share toks =
   match toks with
+  | "SHARE" :: _ :: r -> c08_drop_share r
+  | t :: r -> t :: c08_drop_share r
+  | [] -> []
+let c08_seq (_ : Float64.t arith) (toks : string list) : string =
+  match c08_drop_share toks with
   | ty :: r ->
     let cdc = (match ty with "int" | "uint" -> uint_codec | _ -> id_codec) in
     let ops = c08_parse_ops r in
